@@ -20,7 +20,7 @@ import multiprocessing as mp
 import z3
 
 from .engine import terms as T
-from .engine.vc import Ctx, explore, discharge, discharge_smt2, PathResult, Unsupported, PathAbort
+from .engine.vc import Ctx, explore, discharge, discharge_smt2, PathResult, Unsupported, PathAbort, PathEnd
 from .engine.values import PyRaise, FuncVal
 from .engine.interp import Interp
 from .engine.repo import Repo
@@ -183,13 +183,13 @@ def run_case(cls, case_idx, timeout_ms=None):
         res["outcomes"][p.outcome] = res["outcomes"].get(p.outcome, 0) + 1
         if p.outcome == "unsupported":
             res["unsupported"].append(p.exc)
-        else:
+        elif p.outcome != "segment":
             reached += 1
         res["trusted"] |= p.cx.trusted
         for ev in p.cx.events:
             res["events"].append([str(x) for x in ev])
         # vacuity: hypotheses of at least one reaching path are satisfiable
-        if not covered and p.outcome != "unsupported":
+        if not covered and p.outcome not in ("unsupported", "segment"):
             r = p.cx.check_sat(timeout_ms=5000)
             if r == z3.sat:
                 covered = True
